@@ -1,12 +1,50 @@
 import TTV.Sexp
+import TTV.Drv.C01
+import TTV.Drv.C02
+import TTV.Drv.C03
+import TTV.Drv.C04
+import TTV.Drv.C05
+import TTV.Drv.C06
+import TTV.Drv.C07
+import TTV.Drv.C08
+import TTV.Drv.C09
+import TTV.Drv.C10
+import TTV.Drv.C11
+import TTV.Drv.C12
+import TTV.Drv.C13
+import TTV.Drv.C14
+import TTV.Drv.C15
+import TTV.Drv.C16
+import TTV.Drv.C17
+import TTV.Drv.C18
 import TTV.Drv.C19
+import TTV.Drv.C20
 /-! Line-protocol driver.  One request per line: `(<property> <input> <implementation trace>)`;
 one reply per line (see `TTV.PropDrv.handle`).  Imports models, specs and codecs only — never
 `TTV.Props`, so it still builds and runs when a proof obligation is broken. -/
 open TTV
 
 def dispatch : String → List Sexp → Sexp
+  | "C01", a => Drv.C01.handle a
+  | "C02", a => Drv.C02.handle a
+  | "C03", a => Drv.C03.handle a
+  | "C04", a => Drv.C04.handle a
+  | "C05", a => Drv.C05.handle a
+  | "C06", a => Drv.C06.handle a
+  | "C07", a => Drv.C07.handle a
+  | "C08", a => Drv.C08.handle a
+  | "C09", a => Drv.C09.handle a
+  | "C10", a => Drv.C10.handle a
+  | "C11", a => Drv.C11.handle a
+  | "C12", a => Drv.C12.handle a
+  | "C13", a => Drv.C13.handle a
+  | "C14", a => Drv.C14.handle a
+  | "C15", a => Drv.C15.handle a
+  | "C16", a => Drv.C16.handle a
+  | "C17", a => Drv.C17.handle a
+  | "C18", a => Drv.C18.handle a
   | "C19", a => Drv.C19.handle a
+  | "C20", a => Drv.C20.handle a
   | _, _ => .atom "unknown-property"
 
 def handleLine (line : String) : String :=
